@@ -20,7 +20,9 @@ pub fn encode_all(v: &Value) -> Vec<J> {
         res("serde_json::to_string", guarded(|| serde_json::to_string(v).map_err(|e| e.to_string()))),
         res("serde_json::to_vec", guarded(|| serde_json::to_vec(v).map_err(|e| e.to_string()))),
         res("serde_json::to_value", guarded(|| serde_json::to_value(v).map_err(|e| e.to_string()))),
-        res("Display", guarded(|| -> Result<String, String> {
+        // the way display text is obtained in practice: `to_string` panics when the Display implementation reports an error
+        res("Display", guarded(|| -> Result<String, String> { Ok(v.to_string()) })),
+        res("Display (write!)", guarded(|| -> Result<String, String> {
             use std::fmt::Write;
             let mut s = String::new();
             write!(s, "{}", v).map_err(|e| e.to_string())?;
